@@ -194,3 +194,210 @@ Example C09_ill_placed_example :
   lifecycle_ok_h [AEmerge 1; ACommit 1 0; AHibernate 1 []; ACommit 1 1] = false /\
   outcome (run ex_ops on_disk ex_io no_adv [AEmerge 1; ACommit 1 0; AHibernate 1 []; ACommit 1 1] []) = Panic PUseHibernated.
 Proof. vm_compute. split; reflexivity. Qed.
+
+(* ==== composition ==== *)
+(* The hypotheses of the theorems above discharged inside Coq (coq/theories/Compose/PlanHib.v, AllocItem.v,
+   HibComposed.v):
+   - [lifecycle_ok_h p = true] for p = [fwd_plan] (the plan syntax of C04 read in the syntax of this model; Items[0]
+     of an action without items reads as branch 0, excluded by C04's wf_action) of every output of C04's model of
+     insertHibernateBoot on a lifecycle-sound plan without hibernate/boot actions, and of every plan C04's validator
+     [c04_ok] accepts; [erase_hb] commutes with the translation;
+   - the three item hypotheses for [alloc_ops]: the item whose hibernation state is the allocator model of C06
+     (awake: cells and strictly increasing gap list, both shorter than 2^32; hibernated: the two lengths and the
+     seven buffers) plus an arbitrary payload P, with compress / decompress / encode / decode defined by C06's
+     hibernate / boot / serialize / deserialize and every other operation arbitrary.
+   LZ4 stays a hypothesis, as in C06: [lz4_ok] (same statement) and [lz4_small] only for blocks shorter than 2^32
+   words (implied by C06's unbounded lz4_small). *)
+From Herc Require Import Compose.PlanHib Compose.AllocItem Compose.HibComposed.
+From Herc Require Plan.Syntax Plan.Exec Plan.Lifecycle Plan.Hibernate Plan.HibernateProofs Plan.LifecycleProofs Alloc.Model.
+From Coq Require Lia.
+
+Theorem C09_lifecycle_composed : forall (p0 : list Plan.Syntax.action) (d : Z),
+  Plan.Lifecycle.lifecycle_ok p0 -> Forall Plan.HibernateProofs.hb_kind p0 ->
+  lifecycle_ok_h (fwd_plan (Plan.Hibernate.insert_hb p0 d)) = true /\
+  erase_hb (fwd_plan (Plan.Hibernate.insert_hb p0 d)) = fwd_plan p0.
+Proof. exact insert_hb_fwd. Qed.
+Print Assumptions C09_lifecycle_composed.
+
+Theorem C09_lifecycle_of_validated_plan : forall (g : list (list nat)) (p : list Plan.Syntax.action),
+  Plan.Lifecycle.c04_ok g p = true ->
+  lifecycle_ok_h (fwd_plan p) = true /\ erase_hb (fwd_plan p) = fwd_plan (Plan.Syntax.erase_hb p).
+Proof. exact (fun g p H => conj (c04_ok_fwd g p H) (erase_fwd p)). Qed.
+Print Assumptions C09_lifecycle_of_validated_plan.
+
+Theorem C09_item_assumptions_composed :
+  forall (lz4c : list N -> list N) (lz4d : list N -> nat -> list N),
+    (forall l, l <> [] -> lz4c l <> [] /\ lz4d (lz4c l) (length l) = l) ->
+    (forall l, (N.of_nat (length l) < 2 ^ 32)%N -> (N.of_nat (length (lz4c l)) < 2 ^ 63)%N) ->
+  forall (P R : Type) (cons : N -> N -> bool -> AllocItem.S P -> result (AllocItem.S P))
+         (cl : AllocItem.S P -> AllocItem.S P) (mg : list (AllocItem.S P) -> result (list (AllocItem.S P)))
+         (fin : AllocItem.S P -> result R) (ini : AllocItem.S P),
+  let o := alloc_ops lz4c lz4d P R cons cl mg fin ini in
+  (forall s, size o s <> 0 -> decompress o (compress o s) = s) /\
+  (forall h, decode o (strip o h) (encode o h) = Some h) /\
+  (forall h j, (j < length (encode o h))%nat -> decode o (strip o h) (firstn j (encode o h)) = None).
+Proof. exact (fun c dd H1 H2 P R => alloc_ops_assumptions c dd H1 H2 P R). Qed.
+Print Assumptions C09_item_assumptions_composed.
+
+(* Hibernation is transparent: for the allocator-backed item and every plan that insertHibernateBoot (C04's model)
+   makes from a lifecycle-sound plan p0, any distance d, any threshold, memory or disk - when all I/O succeeds and
+   nobody touches the files the run gives exactly the outcome of p0 without hibernation. *)
+Theorem C09_erasure_composed :
+  forall (lz4c : list N -> list N) (lz4d : list N -> nat -> list N),
+    (forall l, l <> [] -> lz4c l <> [] /\ lz4d (lz4c l) (length l) = l) ->
+    (forall l, (N.of_nat (length l) < 2 ^ 32)%N -> (N.of_nat (length (lz4c l)) < 2 ^ 63)%N) ->
+  forall (P R : Type) (cons : N -> N -> bool -> AllocItem.S P -> result (AllocItem.S P))
+         (cl : AllocItem.S P -> AllocItem.S P) (mg : list (AllocItem.S P) -> result (list (AllocItem.S P)))
+         (fin : AllocItem.S P -> result R) (ini : AllocItem.S P)
+         (cfg : config) (io : nat -> io_choice) (adv : nat -> list tamper) (fs0 : list (N * list N)),
+    (forall i j, io_name (io i) = io_name (io j) -> i = j) ->
+    (forall i, fs_mem (io_name (io i)) fs0 = false) ->
+  forall (p0 : list Plan.Syntax.action) (d : Z),
+    Plan.Lifecycle.lifecycle_ok p0 -> Forall Plan.HibernateProofs.hb_kind p0 ->
+  forall (cfg0 : config) (io0 : nat -> io_choice) (adv0 : nat -> list tamper) (fs00 : list (N * list N)),
+    (forall i, io_result (io i) = IoOk) -> (forall i, adv i = []) ->
+    outcome (run (alloc_ops lz4c lz4d P R cons cl mg fin ini) cfg io adv
+                 (fwd_plan (Plan.Hibernate.insert_hb p0 d)) fs0) =
+    outcome (run (alloc_ops lz4c lz4d P R cons cl mg fin ini) cfg0 io0 adv0 (fwd_plan p0) fs00).
+Proof. exact erasure_composed. Qed.
+Print Assumptions C09_erasure_composed.
+
+(* Under ANY I/O failures and ANY removal / truncation of files: the outcome of p0 without hibernation or an I/O
+   error, never another result; and a damaged file of a sleeping branch (missing, or a proper prefix of what
+   Serialize wrote) never ends in Ok. *)
+Theorem C09_faults_composed :
+  forall (lz4c : list N -> list N) (lz4d : list N -> nat -> list N),
+    (forall l, l <> [] -> lz4c l <> [] /\ lz4d (lz4c l) (length l) = l) ->
+    (forall l, (N.of_nat (length l) < 2 ^ 32)%N -> (N.of_nat (length (lz4c l)) < 2 ^ 63)%N) ->
+  forall (P R : Type) (cons : N -> N -> bool -> AllocItem.S P -> result (AllocItem.S P))
+         (cl : AllocItem.S P -> AllocItem.S P) (mg : list (AllocItem.S P) -> result (list (AllocItem.S P)))
+         (fin : AllocItem.S P -> result R) (ini : AllocItem.S P)
+         (cfg : config) (io : nat -> io_choice) (adv : nat -> list tamper) (fs0 : list (N * list N)),
+    (forall i j, io_name (io i) = io_name (io j) -> i = j) ->
+    (forall i, fs_mem (io_name (io i)) fs0 = false) ->
+  forall (p0 : list Plan.Syntax.action) (d : Z),
+    Plan.Lifecycle.lifecycle_ok p0 -> Forall Plan.HibernateProofs.hb_kind p0 ->
+  forall (cfg0 : config) (io0 : nat -> io_choice) (adv0 : nat -> list tamper) (fs00 : list (N * list N)),
+    (outcome (run (alloc_ops lz4c lz4d P R cons cl mg fin ini) cfg io adv
+                  (fwd_plan (Plan.Hibernate.insert_hb p0 d)) fs0) =
+     outcome (run (alloc_ops lz4c lz4d P R cons cl mg fin ini) cfg0 io0 adv0 (fwd_plan p0) fs00) \/
+     exists e, outcome (run (alloc_ops lz4c lz4d P R cons cl mg fin ini) cfg io adv
+                            (fwd_plan (Plan.Hibernate.insert_hb p0 d)) fs0) = Err e /\ io_err e = true) /\
+    (forall r, outcome (run (alloc_ops lz4c lz4d P R cons cl mg fin ini) cfg io adv
+                            (fwd_plan (Plan.Hibernate.insert_hb p0 d)) fs0) = Ok r ->
+               outcome (run (alloc_ops lz4c lz4d P R cons cl mg fin ini) cfg0 io0 adv0 (fwd_plan p0) fs00) = Ok r).
+Proof. exact faults_composed. Qed.
+Print Assumptions C09_faults_composed.
+
+Theorem C09_faults_damaged_file_composed :
+  forall (lz4c : list N -> list N) (lz4d : list N -> nat -> list N),
+    (forall l, l <> [] -> lz4c l <> [] /\ lz4d (lz4c l) (length l) = l) ->
+    (forall l, (N.of_nat (length l) < 2 ^ 32)%N -> (N.of_nat (length (lz4c l)) < 2 ^ 63)%N) ->
+  forall (P R : Type) (cons : N -> N -> bool -> AllocItem.S P -> result (AllocItem.S P))
+         (cl : AllocItem.S P -> AllocItem.S P) (mg : list (AllocItem.S P) -> result (list (AllocItem.S P)))
+         (fin : AllocItem.S P -> result R) (ini : AllocItem.S P)
+         (cfg : config) (io : nat -> io_choice) (adv : nat -> list tamper) (fs0 : list (N * list N)),
+    (forall i j, io_name (io i) = io_name (io j) -> i = j) ->
+    (forall i, fs_mem (io_name (io i)) fs0 = false) ->
+  forall (p0 : list Plan.Syntax.action) (d : Z),
+    Plan.Lifecycle.lifecycle_ok p0 -> Forall Plan.HibernateProofs.hb_kind p0 ->
+  forall (n : nat) (done rest : list action) (st : rstate),
+    exec_n (alloc_ops lz4c lz4d P R cons cl mg fin ini) cfg io adv n []
+           (fwd_plan (Plan.Hibernate.insert_hb p0 d)) (start fs0) = Some (done, rest, st) ->
+    (exists b k m h, tget b (br st) = Some (HibDisk k m) /\
+                     strip (alloc_ops lz4c lz4d P R cons cl mg fin ini) h = k /\
+                     damaged (alloc_ops lz4c lz4d P R cons cl mg fin ini) (apply_tampers (fs st) (adv n)) m h) ->
+    forall r, outcome (run (alloc_ops lz4c lz4d P R cons cl mg fin ini) cfg io adv
+                           (fwd_plan (Plan.Hibernate.insert_hb p0 d)) fs0) <> Ok r.
+Proof. exact damaged_file_composed. Qed.
+Print Assumptions C09_faults_damaged_file_composed.
+
+Theorem C09_no_leftover_composed :
+  forall (lz4c : list N -> list N) (lz4d : list N -> nat -> list N),
+    (forall l, l <> [] -> lz4c l <> [] /\ lz4d (lz4c l) (length l) = l) ->
+    (forall l, (N.of_nat (length l) < 2 ^ 32)%N -> (N.of_nat (length (lz4c l)) < 2 ^ 63)%N) ->
+  forall (P R : Type) (cons : N -> N -> bool -> AllocItem.S P -> result (AllocItem.S P))
+         (cl : AllocItem.S P -> AllocItem.S P) (mg : list (AllocItem.S P) -> result (list (AllocItem.S P)))
+         (fin : AllocItem.S P -> result R) (ini : AllocItem.S P)
+         (cfg : config) (io : nat -> io_choice) (adv : nat -> list tamper) (fs0 : list (N * list N)),
+    (forall i j, io_name (io i) = io_name (io j) -> i = j) ->
+    (forall i, fs_mem (io_name (io i)) fs0 = false) ->
+  forall (p0 : list Plan.Syntax.action) (d : Z),
+    Plan.Lifecycle.lifecycle_ok p0 -> Forall Plan.HibernateProofs.hb_kind p0 ->
+  forall r : option R,
+    outcome (run (alloc_ops lz4c lz4d P R cons cl mg fin ini) cfg io adv
+                 (fwd_plan (Plan.Hibernate.insert_hb p0 d)) fs0) = Ok r ->
+    forall n, fs_mem n (files_left (run (alloc_ops lz4c lz4d P R cons cl mg fin ini) cfg io adv
+                                        (fwd_plan (Plan.Hibernate.insert_hb p0 d)) fs0)) = true ->
+              fs_mem n fs0 = true.
+Proof. exact no_leftover_composed. Qed.
+Print Assumptions C09_no_leftover_composed.
+
+(* ---- non-vacuity of the composed statements ------------------------------------------------------ *)
+(* a toy codec satisfies the two LZ4 hypotheses *)
+Definition cx_lz4c (l : list N) : list N := 255%N :: l.
+Definition cx_lz4d (dd : list N) (n : nat) : list N := firstn n (tl dd).
+Example C09_composed_codec :
+  (forall l, l <> [] -> cx_lz4c l <> [] /\ cx_lz4d (cx_lz4c l) (length l) = l) /\
+  (forall l, (N.of_nat (length l) < 2 ^ 32)%N -> (N.of_nat (length (cx_lz4c l)) < 2 ^ 63)%N).
+Proof.
+  split.
+  - intros l _. split; [discriminate|]. exact (firstn_all l).
+  - intros l H. unfold cx_lz4c. cbn [length]. rewrite Nat2N.inj_succ.
+    change (2 ^ 32)%N with 4294967296%N in H. change (2 ^ 63)%N with 9223372036854775808%N. Lia.lia.
+Qed.
+
+(* the plan: C04's garbage-collected diamond (coq/props/C04.v [diamond_gc]) with hibernation distance 0 *)
+Definition cx_p0 : list Plan.Syntax.action :=
+  [Plan.Syntax.emerge 1 (Some 0%nat); Plan.Syntax.commit_on 0 1;
+   Plan.Syntax.mkA Plan.Syntax.KFork (Some 0%nat) [1; 2]; Plan.Syntax.commit_on 1 1; Plan.Syntax.commit_on 2 2;
+   Plan.Syntax.commit_on 3 1; Plan.Syntax.commit_on 3 2; Plan.Syntax.merge_of [1; 2]; Plan.Syntax.delete 2;
+   Plan.Syntax.commit_on 4 1].
+Example C09_composed_plan :
+  Plan.Lifecycle.lifecycle_ok cx_p0 /\ Forall Plan.HibernateProofs.hb_kind cx_p0 /\
+  lifecycle_ok_h (fwd_plan (Plan.Hibernate.insert_hb cx_p0 0)) = true /\
+  length (fwd_plan (Plan.Hibernate.insert_hb cx_p0 0)) = 20%nat /\
+  erase_hb (fwd_plan (Plan.Hibernate.insert_hb cx_p0 0)) = fwd_plan cx_p0.
+Proof.
+  split; [apply Plan.LifecycleProofs.lifecycleb_sound; vm_compute; reflexivity|].
+  split; [apply Plan.HibernateProofs.hb_inputb_spec; vm_compute; reflexivity|].
+  vm_compute. repeat split.
+Qed.
+
+(* an allocator-backed item: every commit appends a cell to the arena and is logged in the payload *)
+Definition cx_cons (c idx : N) (m : bool) (s : AllocItem.S (list N)) : result (AllocItem.S (list N)) :=
+  Ok (pack av_ok adummy (mkAV (av_cells (proj1_sig (fst s)) ++ [Alloc.Model.mkcell c idx 0 0 0 m]) (av_gaps (proj1_sig (fst s)))),
+      c :: snd s).
+Definition cx_fin (s : AllocItem.S (list N)) : result (nat * list N) :=
+  Ok (length (av_cells (proj1_sig (fst s))), snd s).
+Definition cx_ops : ops (AllocItem.S (list N)) (AllocItem.H (list N)) (AllocItem.K (list N)) (nat * list N) N :=
+  alloc_ops cx_lz4c cx_lz4d (list N) (nat * list N) cx_cons (fun s => s) (fun ss => Ok ss) cx_fin (adummy, []).
+
+(* on disk, threshold 0: every Hibernate writes the arena through C06's serialize, every Boot reads it back
+   through deserialize and boot; the result is the one of the plan without hibernation, no file is left *)
+Example C09_composed_run :
+  let x := run cx_ops on_disk ex_io no_adv (fwd_plan (Plan.Hibernate.insert_hb cx_p0 0)) [] in
+  outcome x = outcome (run cx_ops in_memory ex_io no_adv (fwd_plan cx_p0) []) /\
+  outcome x = Ok (Some (4%nat, [4; 3; 1; 0]%N)) /\
+  files_left x = [] /\
+  length (filter (fun e => match e with EvHibDisk _ _ _ _ => true | _ => false end) (evs (snd x))) = 5%nat /\
+  length (filter (fun e => match e with EvBootDisk _ _ => true | _ => false end) (evs (snd x))) = 5%nat.
+Proof. vm_compute. repeat split. Qed.
+
+(* a file truncated while its branch sleeps: the run returns the read error *)
+Example C09_composed_fault :
+  exists k, outcome (run cx_ops on_disk ex_io (adv_at k [TTrunc 1%N 5]) (fwd_plan (Plan.Hibernate.insert_hb cx_p0 0)) [])
+            = Err ERead.
+Proof. exists 4%nat. vm_compute. reflexivity. Qed.
+
+(* the two planner stages of C04 composed: for every plan as generatePlan emits them ([pre_ok]: lifecycle-sound, only
+   commit / fork / merge / emerge, branch ids >= 1) the model of collectGarbage followed by insertHibernateBoot gives a
+   plan that satisfies this model's predicate and erases to the garbage-collected plan *)
+From Herc Require Plan.GC Plan.GCProofs.
+Theorem C09_lifecycle_gc_then_hib_composed : forall (p : list Plan.Syntax.action) (d : Z), Plan.GCProofs.pre_ok p ->
+  exists p', Plan.GC.collect_garbage p = Some p' /\
+    lifecycle_ok_h (fwd_plan (Plan.Hibernate.insert_hb p' d)) = true /\
+    erase_hb (fwd_plan (Plan.Hibernate.insert_hb p' d)) = fwd_plan p' /\
+    Plan.Syntax.erase_deletes p' = p.
+Proof. exact gc_then_hib_fwd. Qed.
+Print Assumptions C09_lifecycle_gc_then_hib_composed.
